@@ -411,9 +411,22 @@ def race_pass(scratch, prop, tier, seed):
 
 
 def replay(path):
+    """Re-execute a violation file against /repo's working tree (instrumented build, no explorer)."""
+    if path.endswith(".txt"):
+        # report of the free-running race pass: not replayable step by step; re-run the pass
+        print(open(path).read()[:3000])
+        print("mc: this is a race-detector report of C16's free-running pass; re-running that pass")
+        scratch = tempfile.mkdtemp(prefix="mc-replay-")
+        try:
+            rp = race_pass(scratch, "C16", "quick", int(os.environ.get("VERIF_SEED", "0") or 0))
+            print("mc: race pass: %d run(s), %d with a race report" % (rp["runs"], rp["races"]))
+            return 1 if rp["races"] else 0
+        finally:
+            shutil.rmtree(scratch, ignore_errors=True)
+    prop = json.load(open(path)).get("property", "")
     scratch = tempfile.mkdtemp(prefix="mc-replay-")
     try:
-        worker, _ = prepare(scratch)
+        worker, _ = prepare(scratch, sync=PROPS.get(prop, {}).get("sync", False))
         r = subprocess.run([worker, "-replay", path], env=dict(ENV, MC_SITES=os.path.join(scratch, "sites.json")))
         return r.returncode
     finally:
